@@ -418,6 +418,13 @@ def scratch (hits : List CBond) (k : Nat) : Nat :=
   | some jb => jb.bond
   | none => 0
 
+/-- `for j in range(q_atom.from_, q_atom.to_): c_bond = closures[path[j_bond.index]]; if not c_bond or j_bond.bond & c_bond != c_bond: break`
+    … `else:` accepted (`images` = `path[j_bond.index]` per query closure bond) -/
+def closureAll (hits qb : List CBond) (images : List Nat) : Bool :=
+  (qb.zip images).all fun (jb, x) =>
+    let c := scratch hits x
+    !(c == 0 || (jb.bond &&& c != c))
+
 /-- the closure block for candidate `mAtom` reached from `n` -/
 def closureC (m : CMol) (q : CQuery) (qa : CQAtom) (mAtom : CAtom) (n : Nat) (matched : List Bool) (path : List Nat) :
     Option Bool := do
@@ -428,9 +435,7 @@ def closureC (m : CMol) (q : CQuery) (qa : CQAtom) (mAtom : CAtom) (n : Nat) (ma
     if hits.length == qa.closure then
       let qb ← slice? q.bonds qa.from_ qa.to_
       let images ← qb.mapM fun jb => path[jb.index]?
-      pure ((qb.zip images).all fun (jb, x) =>
-        let c := scratch hits x
-        !(c == 0 || (jb.bond &&& c != c)))
+      pure (closureAll hits qb images)
     else pure false
   else pure hits.isEmpty
 
